@@ -62,6 +62,7 @@ class XferWorld:
         self.r2s_delivered = 0
         self.transit_link = None
         self.events = []
+        self._s2r_orig = bytearray()   # the record stream sender -> receiver as it was written (for the replay fault)
         self.chunk = None            # max bytes per delivery on the transit link (None = whole units)
         self.step_limit = 200000
 
@@ -192,6 +193,22 @@ class XferWorld:
                     self.events.append(("cut", f["cut_at"]))
                     self._kill(link)
                     return
+                if "replay_rec" in f:
+                    # record j is replaced, byte for byte, by the record before it (same length): what the receiver is
+                    # shown is genuine ciphertext of this very stream under a nonce it has already seen
+                    lo, hi, L = f["replay_rec"]
+                    if rel < 0:
+                        self._s2r_orig += b"\x00" * 0
+                    start = max(rel, 0)
+                    self._s2r_orig += bytes(unit[start - rel:n])
+                    a, z = max(rel, lo), min(rel + n, hi)
+                    if a < z:
+                        b = bytearray(unit)
+                        for pp in range(a, z):
+                            b[pp - rel] = self._s2r_orig[pp - L]
+                        t.out[0] = bytes(b)
+                        if not any(e[0] == "replay" for e in self.events):
+                            self.events.append(("replay", lo))
                 if "corrupt_at" in f and rel <= f["corrupt_at"] < rel + n:
                     off = f["corrupt_at"] - rel
                     b = bytearray(unit)
